@@ -8,24 +8,6 @@ Case syntax: see harness/cmd/harness/cmp.go.
 namespace Grol.CmpSuite
 open Grol Grol.Wire Grol.Obj Grol.Value
 
-mutual
-/-- the values a program can compare: no RETURN / MACRO object inside, every integer an int64 -/
-def isData : Obj → Bool
-  | .ret _ => false
-  | .mac _ => false
-  | .int v => decide (minInt64 ≤ v ∧ v ≤ maxInt64)
-  | .reg v => decide (minInt64 ≤ v ∧ v ≤ maxInt64)
-  | .arr els => isDataList els
-  | .map kvs => isDataKVs kvs
-  | _ => true
-def isDataList : List Obj → Bool
-  | [] => true
-  | x :: xs => isData x && isDataList xs
-def isDataKVs : List (Obj × Obj) → Bool
-  | [] => true
-  | (k, v) :: xs => isData k && isData v && isDataKVs xs
-end
-
 /-! ### observations -/
 
 /-- result of a three-way comparison: `none` = Go panic -/
